@@ -64,8 +64,8 @@ pub fn group_solver(
     weights: &[CouplingWeightItem],
 ) -> Option<(SelectedGroups, f64)> {
     #[cfg(feature = "verif")]
-    if verif::memo_active() {
-        return verif::memoized_group_solver(free, entries, weights);
+    if let Some(r) = verif::memoized(free, entries, weights) {
+        return r;
     }
     let mut solver = LpSolver::new(false);
     let vars: SmallVec<[SmallVec<_>; FAST_MAX_COUPLED_RESOURCES]> = entries
@@ -158,119 +158,199 @@ pub fn group_solver(
     ))
 }
 
-/// Verification hook (feature `verif`): a process-wide memo of `group_solver` results keyed by
-/// its complete input. A model-checking harness re-executes the same short histories many
-/// thousands of times; the solve is a deterministic function of its arguments, so repeating
-/// it only costs time. Off unless a harness thread switches it on; every N-th hit is
-/// re-solved and compared.
+/// Verification hooks (feature `verif`): a memo in front of `group_solver`.
+///
+/// `group_solver` is a pure function of (free whole units and biggest free fraction per group of
+/// every requested resource, the requested amounts/policies, the coupling weights). One HiGHS
+/// call costs ~1 ms, and an exhaustive exploration of the allocator repeats the same instance
+/// thousands of times. The memo is off unless a thread switches it on; on a miss it re-enters the
+/// real `group_solver` (with the memo bypassed) and stores what it returned; every
+/// `audit_every`-th hit is recomputed with the real solver and compared. Add-only; nothing here
+/// is compiled without the feature.
 #[cfg(feature = "verif")]
 pub mod verif {
     use super::*;
+    use crate::Map;
     use std::cell::Cell;
     use std::sync::Mutex;
 
-    type Stored = Option<(Vec<Vec<usize>>, f64)>;
+    /// (resource id, requested amount in fractions, per group (free whole units, biggest free
+    /// fraction)): everything `group_solver` reads of an entry (the policy is not looked at)
+    type EntryKey = (u32, u64, Vec<(u32, u32)>);
+    /// (entries, weights as (resource1, group1, resource2, group2, weight bits))
+    type Key = (Vec<EntryKey>, Vec<(u32, u8, u32, u8, u64)>);
+    type Value = Option<(Vec<Vec<usize>>, u64)>;
 
     struct Memo {
-        table: crate::Map<String, Stored>,
+        table: Map<Key, Value>,
         hits: u64,
         misses: u64,
+        audits: u64,
         audit_failures: u64,
+        audit_every: u64,
+        solve_nanos: u64,
     }
 
     static MEMO: Mutex<Option<Memo>> = Mutex::new(None);
 
     thread_local! {
         static ENABLED: Cell<bool> = const { Cell::new(false) };
-        static BYPASS: Cell<bool> = const { Cell::new(false) };
+        static INSIDE: Cell<bool> = const { Cell::new(false) };
     }
 
+    fn with_memo<R>(f: impl FnOnce(&mut Memo) -> R) -> R {
+        let mut g = MEMO.lock().unwrap_or_else(|e| e.into_inner());
+        let m = g.get_or_insert_with(|| Memo {
+            table: Map::new(),
+            hits: 0,
+            misses: 0,
+            audits: 0,
+            audit_failures: 0,
+            audit_every: 1024,
+            solve_nanos: 0,
+        });
+        f(m)
+    }
+
+    /// Switch the memo on or off for the calling thread (off by default).
     pub fn set_group_solver_memo(enabled: bool) {
         ENABLED.with(|e| e.set(enabled));
     }
 
-    /// (hits, misses, audit failures)
-    pub fn group_solver_memo_stats() -> (u64, u64, u64) {
-        let g = MEMO.lock().unwrap_or_else(|e| e.into_inner());
-        g.as_ref()
-            .map(|m| (m.hits, m.misses, m.audit_failures))
-            .unwrap_or((0, 0, 0))
+    #[derive(Debug, Clone, Copy, Default)]
+    pub struct GroupSolverMemoStats {
+        pub hits: u64,
+        pub misses: u64,
+        pub audits: u64,
+        pub audit_failures: u64,
+        pub entries: u64,
+        /// wall time spent in real solves (misses + audits), milliseconds
+        pub solve_ms: u64,
     }
 
-    pub(super) fn memo_active() -> bool {
-        ENABLED.with(|e| e.get()) && !BYPASS.with(|b| b.get())
+    pub fn group_solver_memo_stats() -> GroupSolverMemoStats {
+        with_memo(|m| GroupSolverMemoStats {
+            hits: m.hits,
+            misses: m.misses,
+            audits: m.audits,
+            audit_failures: m.audit_failures,
+            entries: m.table.len() as u64,
+            solve_ms: m.solve_nanos / 1_000_000,
+        })
     }
 
-    fn to_stored(r: &Option<(SelectedGroups, f64)>) -> Stored {
-        r.as_ref()
-            .map(|(g, o)| (g.iter().map(|x| x.iter().copied().collect()).collect(), *o))
+    fn key_of(
+        free: &ConciseFreeResources,
+        entries: &[&crate::resources::ResourceAllocRequest],
+        weights: &[CouplingWeightItem],
+    ) -> Key {
+        (
+            entries
+                .iter()
+                .map(|e| {
+                    (
+                        e.resource_id.as_num(),
+                        e.request
+                            .amount_or_none_if_all()
+                            .unwrap()
+                            .total_fractions(),
+                        free.get(e.resource_id).amount_max_per_group().collect(),
+                    )
+                })
+                .collect(),
+            weights
+                .iter()
+                .map(|w| {
+                    (
+                        w.resource1.as_num(),
+                        w.group1.as_num(),
+                        w.resource2.as_num(),
+                        w.group2.as_num(),
+                        w.weight.to_bits(),
+                    )
+                })
+                .collect(),
+        )
     }
 
-    fn from_stored(s: &Stored) -> Option<(SelectedGroups, f64)> {
-        s.as_ref().map(|(g, o)| {
+    fn to_value(r: &Option<(SelectedGroups, f64)>) -> Value {
+        r.as_ref().map(|(g, o)| {
             (
                 g.iter().map(|x| x.iter().copied().collect()).collect(),
-                *o,
+                o.to_bits(),
             )
         })
     }
 
-    pub(super) fn memoized_group_solver(
+    fn from_value(v: &Value) -> Option<(SelectedGroups, f64)> {
+        v.as_ref().map(|(g, o)| {
+            (
+                g.iter().map(|x| x.iter().copied().collect()).collect(),
+                f64::from_bits(*o),
+            )
+        })
+    }
+
+    fn real(
         free: &ConciseFreeResources,
         entries: &[&crate::resources::ResourceAllocRequest],
         weights: &[CouplingWeightItem],
     ) -> Option<(SelectedGroups, f64)> {
-        let key = format!(
-            "{:?}|{:?}|{:?}",
-            free.verif_snapshot(),
-            entries,
-            weights
-                .iter()
-                .map(|w| (
-                    w.resource1.as_num(),
-                    w.group1.as_num(),
-                    w.resource2.as_num(),
-                    w.group2.as_num(),
-                    w.weight.to_bits()
-                ))
-                .collect::<Vec<_>>()
-        );
-        let (cached, audit) = {
-            let mut g = MEMO.lock().unwrap_or_else(|e| e.into_inner());
-            let m = g.get_or_insert_with(|| Memo {
-                table: crate::Map::new(),
-                hits: 0,
-                misses: 0,
-                audit_failures: 0,
-            });
-            match m.table.get(&key) {
-                Some(s) => {
-                    m.hits += 1;
-                    (Some(s.clone()), m.hits % 4096 == 0)
-                }
-                None => {
-                    m.misses += 1;
-                    (None, false)
-                }
-            }
-        };
-        if let Some(s) = cached {
-            if audit {
-                BYPASS.with(|b| b.set(true));
-                let fresh = to_stored(&super::group_solver(free, entries, weights));
-                BYPASS.with(|b| b.set(false));
-                if fresh != s {
-                    let mut g = MEMO.lock().unwrap_or_else(|e| e.into_inner());
-                    g.as_mut().unwrap().audit_failures += 1;
-                }
-            }
-            return from_stored(&s);
+        INSIDE.with(|i| i.set(true));
+        let t0 = std::time::Instant::now();
+        let r = std::panic::catch_unwind(std::panic::AssertUnwindSafe(|| {
+            group_solver(free, entries, weights)
+        }));
+        let dt = t0.elapsed().as_nanos() as u64;
+        INSIDE.with(|i| i.set(false));
+        with_memo(|m| m.solve_nanos += dt);
+        match r {
+            Ok(r) => r,
+            Err(p) => std::panic::resume_unwind(p),
         }
-        BYPASS.with(|b| b.set(true));
-        let r = super::group_solver(free, entries, weights);
-        BYPASS.with(|b| b.set(false));
-        let mut g = MEMO.lock().unwrap_or_else(|e| e.into_inner());
-        g.as_mut().unwrap().table.insert(key, to_stored(&r));
-        r
+    }
+
+    /// `None`: memo not in use, the caller continues with the real solver.
+    pub(super) fn memoized(
+        free: &ConciseFreeResources,
+        entries: &[&crate::resources::ResourceAllocRequest],
+        weights: &[CouplingWeightItem],
+    ) -> Option<Option<(SelectedGroups, f64)>> {
+        if !ENABLED.with(|e| e.get()) || INSIDE.with(|i| i.get()) {
+            return None;
+        }
+        let key = key_of(free, entries, weights);
+        let (cached, audit) = with_memo(|m| {
+            let r = m.table.get(&key).cloned();
+            if r.is_some() {
+                m.hits += 1;
+            } else {
+                m.misses += 1;
+            }
+            let audit = r.is_some() && m.audit_every > 0 && m.hits % m.audit_every == 0;
+            (r, audit)
+        });
+        match cached {
+            Some(v) => {
+                if audit {
+                    let fresh = to_value(&real(free, entries, weights));
+                    with_memo(|m| {
+                        m.audits += 1;
+                        if fresh != v {
+                            m.audit_failures += 1;
+                        }
+                    });
+                }
+                Some(from_value(&v))
+            }
+            None => {
+                let r = real(free, entries, weights);
+                let v = to_value(&r);
+                with_memo(|m| {
+                    m.table.insert(key, v);
+                });
+                Some(r)
+            }
+        }
     }
 }
